@@ -533,13 +533,13 @@ class Episode:
         for e in sim.log:
             if len(e) > 3 and e[2] == "y" and e[3].startswith("fs:"):
                 _, op, rel = e[3].split(":", 2)
-                is_cache = rel.endswith(".pickle") or "<tmp#" in rel or rel.endswith(".tmp")
+                is_cache = ".pickle" in rel or "<tmp#" in rel or rel.endswith(".tmp")
                 if not is_cache:
                     continue
                 loc = "home" if "cache" in rel.split(os.sep) else "companion"
                 which = "isa" if os.sep + "isa" + os.sep in os.sep + rel or rel.startswith("pkg/data/isa") or "/isa/" in rel else "model"
                 if "cache" in rel.split(os.sep):
-                    which = "isa" if os.path.basename(rel).startswith(("x86_", "aarch64_")) else "model"
+                    which = "isa" if os.path.basename(rel).lstrip(".").startswith(("x86_", "aarch64_")) else "model"
                 pt = per_task.setdefault(e[1], set())
                 if op.startswith("open-w") or op == "os.open":
                     open_w.setdefault(rel, set()).add(e[1])
